@@ -188,7 +188,8 @@ def trace_set(th, tier, seed):
     """generate (once per tree/tier/seed) the traces of every family and validate them with TLC"""
     binp = build_harness(th)
     sd = spec_dir()
-    speckey = os.path.basename(sd)
+    libkey = sha("".join(sha(open(f, "rb").read()) for f in sorted(glob.glob(os.path.join(ROOT, "lib", "*.py")) + glob.glob(os.path.join(ROOT, "known", "*.json")) + glob.glob(os.path.join(ROOT, "schedules", "*.json")))))[:8]
+    speckey = os.path.basename(sd) + "-" + libkey
     d = os.path.join(CACHE, "tree-" + th, "traces-%s-%d-%s" % (tier, seed, speckey))
     done = os.path.join(d, "results.json")
     with Lock(os.path.join(CACHE, "tree-" + th, "traces-%s-%d.lock" % (tier, seed))):
@@ -220,6 +221,7 @@ def trace_set(th, tier, seed):
                 results.append(res)
         extra = extra_runs(binp, sd, d, tier, seed)
         results.extend(extra)
+        results.extend(tlc_schedules(binp, sd, d, tier, seed))
         json.dump(results, open(done, "w"))
         log("generated and validated %d trace files (%d records) in %.0fs" % (len(results), sum(r["records"] for r in results), time.time() - t0))
         return results, d
@@ -239,6 +241,32 @@ def extra_runs(binp, sd, d, tier, seed):
         res["records"] = sum(1 for _ in open(tf))
         out.append(res)
     return out
+
+
+def tlc_schedules(binp, sd, d, tier, seed):
+    """behaviours of the closed model (TLC -simulate) replayed on the real keeper and validated like any other trace"""
+    import mc
+    n = 6 if tier == "quick" else 40
+    fams = [f for f in mc.families() if os.path.exists(os.path.join(sd, "MC_%s_sim.cfg" % f))]
+
+    def one(fam):
+        scheds = mc.simulate(sd, fam, n, seed)
+        if not scheds:
+            return None
+        o = os.path.join(d, "tlcsim-" + fam)
+        os.makedirs(o, exist_ok=True)
+        sf = os.path.join(o, "sched.json")
+        json.dump(scheds, open(sf, "w"))
+        run_harness(binp, o, ["-mode", "replay", "-in", sf])
+        tf = os.path.join(o, "replay-0.ndjson")
+        res = run_tlc(sd, tf)
+        res["family"] = "tlcsim:" + fam
+        res["sched"] = sf
+        res["records"] = sum(1 for _ in open(tf))
+        return res
+
+    with concurrent.futures.ThreadPoolExecutor(max_workers=8) as ex:
+        return [r for r in ex.map(one, fams) if r]
 
 
 def load_known():
@@ -321,6 +349,9 @@ def check(pid, tier, seed):
             except Exception:
                 pass
     mc = model_check(pid, tier)
+    for v, r, sched in mc.pop("reproduced", []):
+        viols.append((v, r))
+    mc.pop("counterexamples", None)
     rc = 0
     for kid, (k, v) in kfs.items():
         print("KNOWN-FINDING: property=%s %s %s (e.g. %s step %d: %s)" % (pid, kid, k["title"], v["trace"], v["i"], v["msg"][:160]))
@@ -371,12 +402,31 @@ def compact(e):
 
 
 def model_check(pid, tier):
-    """closed-model run for the property's family (spec/MC_*.tla); filled in by mc.py when present"""
-    try:
-        import mc
-    except ImportError:
-        return {}
-    return mc.run(pid, tier, spec_dir())
+    """closed-model run for the property's families (spec/MC_*.tla).  A counterexample of the model is not a verdict:
+    it is replayed on the real keeper; only a property failure of the recorded real states counts."""
+    import mc
+    sd = spec_dir()
+    res = mc.run(pid, tier, sd)
+    for ce in res.get("counterexamples", []):
+        if not ce.get("dump"):
+            raise MachineryError("closed model of family %s failed without a counterexample" % ce["family"])
+        sched = mc.counterexample_schedule(ce["family"], ce["dump"])
+        th = tree_hash()
+        binp = build_harness(th)
+        tmp = tempfile.mkdtemp(prefix="ce-", dir=CACHE)
+        try:
+            sf = os.path.join(tmp, "s.json")
+            json.dump([sched], open(sf, "w"))
+            run_harness(binp, tmp, ["-mode", "replay", "-in", sf])
+            r = run_tlc(sd, os.path.join(tmp, "replay-0.ndjson"))
+            r["sched"] = sf
+            bad = [v for v in r["viols"] if v["prop"] == pid and not attribute(v, load_known())]
+            if not bad:
+                raise MachineryError("the closed model of family %s has a counterexample that does not reproduce on the code (model error): %s" % (ce["family"], ce["dump"]))
+            res.setdefault("reproduced", []).append((bad[0], r, sched))
+        finally:
+            pass
+    return res
 
 
 def replay(path):
@@ -414,5 +464,9 @@ def setup():
         return 2
     th = tree_hash()
     build_harness(th)
+    import mc
+    t0 = time.time()
+    rs = mc.precompute("quick")
+    print("closed models (quick bounds): %d families, %d distinct states, %.0fs" % (len(rs), sum(r["states"] for r in rs), time.time() - t0))
     print("setup ok: spec %s, harness for tree %s" % (os.path.basename(sd), th))
     return 0
